@@ -89,6 +89,13 @@ def generate(rng, tier, seed):
             cases.append(hot_case(opn, scripts, take, ["pct", 3, base, 30 if thorough else 10]))
             if rng.random() < 0.5:
                 cases.append(cold_case(opn, scripts, take, ["random", base, 30 if thorough else 12]))
+        # amb with an input that completes without ever emitting: if it signals first it wins (empty output), otherwise it is a
+        # loser whose only signal - its completion - must not end the winner's stream
+        scripts = scripts_for(rng, rng.choice([1, 2]), 3) + [[]]
+        rng.shuffle(scripts)
+        base = seed * 1000 + rng.randrange(1000)
+        cases.append(hot_case("amb", scripts, None, ["random", base, 60 if thorough else 25]))
+        cases.append(hot_case("amb", scripts, None, ["pct", 3, base, 30 if thorough else 10]))
         k = rng.choice([2, 3])
         scripts = scripts_for(rng, k, 3)
         base = seed * 1000 + rng.randrange(1000)
@@ -163,7 +170,7 @@ def judge_one(case, ob):
                     bad.append("amb let %d inputs through: positions per input %s" % (len(through), per))
                 if take is None and through and per[through[0]] != list(range(len(scripts[through[0]]))):
                     bad.append("amb's winner %d delivered positions %s of its %d items" % (through[0], per[through[0]], len(scripts[through[0]])))
-                if take is None and not through:
+                if take is None and not through and all(len(sc_) > 0 for sc_ in scripts):
                     bad.append("amb delivered nothing although every input emits")
             if kind == "concat" and take is None:
                 want = [v for s in scripts for v in s]
